@@ -179,6 +179,32 @@ pub fn build<V: Val>(spec: &BuildSpec, vals: &[V]) -> (String, Option<Pma<V>>) {
     }
 }
 
+/// Haystack containers that store their bytes INLINE (moving the container moves the bytes).
+#[derive(Clone, Copy)]
+pub struct InlineBytes {
+    buf: [u8; 64],
+    len: usize,
+}
+impl InlineBytes {
+    fn new(b: &[u8]) -> Self {
+        let mut buf = [0u8; 64];
+        buf[..b.len()].copy_from_slice(b);
+        InlineBytes { buf, len: b.len() }
+    }
+}
+impl AsRef<[u8]> for InlineBytes {
+    fn as_ref(&self) -> &[u8] {
+        &self.buf[..self.len]
+    }
+}
+#[derive(Clone, Copy)]
+pub struct InlineStr(InlineBytes);
+impl AsRef<str> for InlineStr {
+    fn as_ref(&self) -> &str {
+        std::str::from_utf8(self.0.as_ref()).expect("harness: valid UTF-8")
+    }
+}
+
 /// A byte source that can only move forward and counts what was pulled from it.
 pub struct CountingSrc {
     data: Rc<Vec<u8>>,
@@ -335,11 +361,16 @@ impl<V: Val> Pma<V> {
                 8 => by_value!(p, <[u8; 8]>::try_from(hay.as_slice()).unwrap()),
                 16 => by_value!(p, <[u8; 16]>::try_from(hay.as_slice()).unwrap()),
                 32 => by_value!(p, <[u8; 32]>::try_from(hay.as_slice()).unwrap()),
+                n if n <= 64 && n % 2 == 1 => by_value!(p, InlineBytes::new(hay.as_slice())),
                 _ => by_value!(p, hay.as_ref().clone()),
             },
             Pma::C(p) => {
-                let s = String::from_utf8(hay.as_ref().clone()).expect("harness: valid UTF-8");
-                by_value!(p, s)
+                if hay.len() <= 64 && hay.len() % 2 == 1 {
+                    by_value!(p, InlineStr(InlineBytes::new(hay.as_slice())))
+                } else {
+                    let s = String::from_utf8(hay.as_ref().clone()).expect("harness: valid UTF-8");
+                    by_value!(p, s)
+                }
             }
         }
     }
